@@ -236,6 +236,54 @@ def typed_writes(run):
                 break
 
 
+def rotated_reads(run):
+    """
+    Windows of datasets whose geo-transform has rotation / shear terms (and of south-up ones): the block read through a window -
+    inside, across an edge, wholly outside - carries the geo-transform of that window (`rasterio.windows.transform`), so that
+    every pixel keeps its geographic location; values where the window meets the image, nodata elsewhere.
+    """
+    from affine import Affine
+    from rasterio.windows import transform as win_transform
+    from homonim.raster_array import RasterArray
+    n, m = 7, 9
+    k = 0
+    for name, tr in (('rotated 20 deg', Affine.translation(500_000, 6_000_000) * Affine.rotation(20) * Affine.scale(2.0, -2.0)),
+                     ('rotated -35 deg', Affine.translation(500_000, 6_000_000) * Affine.rotation(-35) * Affine.scale(0.5, -0.5)),
+                     ('sheared', Affine(2.0, 0.5, 500_000, 0.25, -2.0, 6_000_000)),
+                     ('south-up', Affine(2.0, 0, 500_000, 0, 2.0, 6_000_000))):
+        p = run.tmpdir() / 'c20_rot.tif'
+        data = np.arange(1, n * m + 1, dtype='float32').reshape(n, m)
+        with rio.open(p, 'w', driver='GTiff', width=m, height=n, count=1, dtype='float32', crs=rasters.CRS3857, transform=tr,
+                      nodata=float('nan')) as ds:
+            ds.write(data, 1)
+        with rio.open(p) as ds:
+            for (r0, c0, rl, cl) in ((0, 0, n, m), (2, 3, 3, 4), (-2, -1, 5, 4), (5, 7, 4, 5), (n + 1, 2, 3, 3), (1, 0, 2, m)):
+                k += 1
+                w = Window(c0, r0, cl, rl)
+                case = dict(i=7_700_000 + k, op='read, non-north-up transform', transform=name, window=(r0, c0, rl, cl))
+                try:
+                    ra = RasterArray.from_rio_dataset(ds, window=w)
+                except Exception as ex:
+                    run.fail(case, f'read raised {type(ex).__name__}: {str(ex)[:80]}', signature=dict(kind='read-raises'))
+                    continue
+                run.evaluations += 1
+                run.hist['reads of rotated / sheared / south-up datasets'] += 1
+                run.nontrivial.add(('rot', k))
+                exp_t = win_transform(w, ds.transform)
+                if not all(abs(a - b) <= 1e-9 * max(1.0, abs(b)) for a, b in zip(ra.transform, exp_t)):
+                    run.fail(case, f'the block read through window {(r0, c0, rl, cl)} of a {name} dataset has transform {tuple(ra.transform)[:6]}, '
+                             f'the window\'s transform is {tuple(exp_t)[:6]}', signature=dict(kind='window-transform'))
+                    continue
+                exp = np.full((rl, cl), np.nan, dtype='float32')
+                for r in range(rl):
+                    for c in range(cl):
+                        if 0 <= r0 + r < n and 0 <= c0 + c < m:
+                            exp[r, c] = data[r0 + r, c0 + c]
+                if ra.array.shape != exp.shape or not np.array_equal(np.nan_to_num(ra.array, nan=-1), np.nan_to_num(exp, nan=-1)):
+                    run.fail(case, f'pixels read through window {(r0, c0, rl, cl)} of a {name} dataset are not the image pixels / nodata',
+                             signature=dict(kind='read-misplaced'))
+
+
 def near_nodata_io(run):
     """
     Values that are close to, but not equal to, a nodata value are data: a block whose nodata is a number (0, -9999, 3e38) and
@@ -467,6 +515,7 @@ def run_writes(run, rng, quick, idx0):
     idx = mask_writes(run, rng, quick, idx, cases, lines, impls)
     typed_writes(run)
     near_nodata_io(run)
+    rotated_reads(run)
     failed = {f['case']['i'] for f in run.failures}
     replies = common.model_batch(lines)
     if replies is None:
